@@ -798,6 +798,8 @@ pub fn run_l1(scn: &C10Scenario, stats: &mut RunStats) -> Vec<Violation> {
     let mut pending_faults: Vec<FaultRule> = Vec::new();
     let mut pending_renotify: Vec<String> = Vec::new();
     let mut pending_fail_fast = false;
+    // the last pass ran under injected faults or fail-fast: it may have left work undone
+    let mut last_pass_relaxed = false;
     let mut signature = 0u64;
     let mut last_outcome: Option<Outcome> = None;
     let mut total_outputs_seen = 0usize;
@@ -1075,6 +1077,7 @@ pub fn run_l1(scn: &C10Scenario, stats: &mut RunStats) -> Vec<Violation> {
                 }
                 pass_index += 1;
                 last_outcome = Some(outcome);
+                last_pass_relaxed = faulty_pass;
                 opts = saved_opts;
                 if faulty_pass {
                     // faults have stopped: the affected paths are reported again
@@ -1103,7 +1106,7 @@ pub fn run_l1(scn: &C10Scenario, stats: &mut RunStats) -> Vec<Violation> {
     }
 
     // quiescent: one more pass with nothing to do performs no write and no remove
-    if violations.is_empty() && inc.tree.is_some() {
+    if violations.is_empty() && inc.tree.is_some() && !last_pass_relaxed {
         if let (Some(fs), Some(Outcome::Done { .. })) = (&sim, &last_outcome) {
             let log_start = fs.log_len();
             fs.set_budget(budget_for(file_count));
